@@ -12,7 +12,9 @@
    (condition, exception) the code checks, tied to the code by exhaustive truth tables.  Request objects:
    oauth2.JWTSecuredAuthorizationRequest / PushedAuthorizationRequest (unpack, strict / lax merge, generic
    check on the merged message; the signature check is symbolic), tied to the code by the driver's
-   request-object matrix.  The other embedded signed objects (AccessTokenResponse, BackChannelLogoutRequest,
+   request-object matrix.  Embedded signed objects with symbolic cryptography (token: JWS valid / forged / alg
+   none, bare JSON, JWE around any of them): embedded_verify, instantiated for session.BackChannelLogoutRequest
+   and tied to the code by the signed-object matrix.  The other embedded signed objects (AccessTokenResponse,
    id_token_hint, the request object of oauth2 / oidc AuthorizationRequest) and the opaque kinds are decided by
    the driver's oracle on the real code only. *)
 From Coq Require Import String.
@@ -114,6 +116,29 @@ Theorem C11_JAR_required_in_object :
   In q (c_params c) -> p_req q = true -> p_name q <> star -> has_key (p_name q) ro = true.
 Proof. exact jar_required_in_object. Qed.
 Print Assumptions C11_JAR_required_in_object.
+
+(* ---- embedded signed objects, cryptography symbolic (Model/Msg.v token / open_token / embedded_verify:
+        Message.from_jwt followed by the embedded class's verify and the allowed_sign_alg keyword; instantiated
+        for session.BackChannelLogoutRequest in Model/MsgCheck.v bclogout_verify) ----
+   With the caller naming the one signing algorithm it expects, an embedded object is accepted only if it
+   carries a valid signature of the expected issuer made with that algorithm - encrypted to the verifier or
+   not.  Bare JSON inside a JWE, alg none and forged signatures are refused whatever the class's own rules
+   are (alg-none tokens carry the header value "none": none_headers_ok). *)
+Theorem C11_embedded_only_signed :
+  forall rules a lc t o, a <> [] -> a <> PS "none" -> none_headers_ok t ->
+  embedded_verify rules (Some a) lc t = Ok o -> signed_with a t.
+Proof. exact embedded_verify_only_signed. Qed.
+Print Assumptions C11_embedded_only_signed.
+
+(* Full statement without the keyword (FALSE of the faithful model; findings signed-object:alg-none and
+   signed-object:jwe:bare-json / jwe:alg-none of the logout token and of every request class):
+     embedded_verify rules None lc t = Ok o -> exists a, signed_with a t.
+   Witness: unsigned JSON encrypted to the verifier's published key is read by json.loads and accepted. *)
+Theorem C11_embedded_refuted :
+  forall lc p o, construct lc p = Ok o ->
+  embedded_verify (fun _ => Ok tt) None lc (TJwe (TJson p)) = Ok o /\ ~ (exists a, signed_with a (TJwe (TJson p))).
+Proof. exact embedded_verify_refuted. Qed.
+Print Assumptions C11_embedded_refuted.
 
 (* ---- cross-parameter rules of the other classes: accepted exactly when the parent check accepts and
         every rule of the class holds (`all_hold` of the ordered rule list) ---- *)
@@ -276,3 +301,33 @@ Example C11_request_object_nonvacuous :
   | _, _, _ => False
   end.
 Proof. vm_compute. repeat split; try reflexivity. eexists. split; reflexivity. Qed.
+
+(* the back-channel logout request over the regenerated table: a signed token is accepted with and without
+   the keyword, plain or encrypted; with allowed_sign_alg every unsigned form is refused - bare JSON inside a
+   JWE by the TypeError of subscripting the missing JWS header *)
+Definition bcl_class : pystr := PS "idpyoidc.message.oidc.session.BackChannelLogoutRequest".
+Definition lt_class : pystr := PS "idpyoidc.message.oidc.session.LogoutToken".
+Definition lt_claims : msg :=
+  [(PS "iss", VStr (PS "https://op.example")); (PS "sub", VStr (PS "s")); (PS "aud", VList [VStr (PS "c")]);
+   (PS "iat", VInt 1700000000); (PS "jti", VStr (PS "j")); (PS "events", VDict [(logout_event, VDict [])])].
+Definition bcl_msg : msg := [(PS "logout_token", VStr (PS "eyJ.eyJ.sig"))].
+Definition bcl_kw : msg := [(PS "iss", VStr (PS "https://op.example")); (PS "aud", VStr (PS "c"))].
+Definition bcl_kw_alg : msg := bcl_kw ++ [(PS "allowed_sign_alg", VStr (PS "RS256"))].
+Definition accepted (r : res msg) : bool := match r with Ok _ => true | _ => false end.
+Example C11_logout_token_nonvacuous :
+  match find_class bcl_class all_classes, find_class lt_class all_classes with
+  | Some c, Some lc =>
+      let run kw t := bclogout_verify c lc 1700000000 kw t bcl_msg in
+      accepted (run bcl_kw (TJws SigValid (PS "RS256") lt_claims)) = true
+      /\ accepted (run bcl_kw_alg (TJws SigValid (PS "RS256") lt_claims)) = true
+      /\ accepted (run bcl_kw_alg (TJwe (TJws SigValid (PS "RS256") lt_claims))) = true
+      /\ run bcl_kw_alg (TJws SigValid (PS "ES256") lt_claims) = Err EUnsupportedAlg
+      /\ run bcl_kw_alg (TJws SigNone (PS "none") lt_claims) = Err EUnsupportedAlg
+      /\ run bcl_kw_alg (TJwe (TJws SigNone (PS "none") lt_claims)) = Err EUnsupportedAlg
+      /\ run bcl_kw_alg (TJwe (TJson lt_claims)) = Err TypeError
+      (* the known findings: without the keyword the unsigned forms pass *)
+      /\ accepted (run bcl_kw (TJwe (TJson lt_claims))) = true
+      /\ accepted (run bcl_kw (TJws SigNone (PS "none") lt_claims)) = true
+  | _, _ => False
+  end.
+Proof. vm_compute. repeat split; reflexivity. Qed.
